@@ -34,7 +34,7 @@ def anc(parent, i):
 
 class Chart:
   def __init__(self, parent, react, init, sig_name="PX", decorate=False, hx=0, fresh=True,
-               none_for=None, names=None):
+               none_for=None, names=None, call_limit=0):
     from vf import core
     import miros.event as ev
     if fresh:
@@ -46,6 +46,8 @@ class Chart:
     self.sig_name = sig_name
     self.SIG = self.Event(signal=sig_name).signal
     self.log = []
+    self.ncalls = 0
+    self.call_limit = call_limit
     self.calls = []          # every call a handler received: (signal_name, state, returned status)
     self.hx = hx
     self.none_for = none_for or {}   # state -> set of signal kinds for which it returns None (C24)
@@ -68,6 +70,10 @@ class Chart:
     ENTRY, EXIT, INIT = signals.ENTRY_SIGNAL, signals.EXIT_SIGNAL, signals.INIT_SIGNAL
 
     def h(chart, e):
+      ch.ncalls += 1
+      if ch.call_limit and ch.ncalls > ch.call_limit:
+        from vf.core import HarnessAbort
+        raise HarnessAbort("call limit")
       s = e.signal
       status = ch._react(i, chart, s)
       ch.calls.append((e.signal_name, i, status))
